@@ -185,7 +185,20 @@ func runCancelCase(c CancelCase) (ev CancelEv) {
 		ev.Crash = "setup: " + err.Error()
 		return
 	}
-	mux, err := larking.NewMux(larking.FilesOption(files))
+	// deadlines and cancellation do not depend on the mux options: two cases in three run with a stats handler and / or
+	// pass-through interceptors installed
+	mopts := []larking.MuxOption{larking.FilesOption(files)}
+	if c.ID%3 != 0 {
+		mopts = append(mopts, larking.StatsOption(&uploadStats{}))
+	}
+	if c.ID%3 == 2 {
+		mopts = append(mopts, larking.UnaryServerInterceptorOption(func(ctx context.Context, req interface{}, info *grpc.UnaryServerInfo, handler grpc.UnaryHandler) (interface{}, error) {
+			return handler(ctx, req)
+		}), larking.StreamServerInterceptorOption(func(srv interface{}, ss grpc.ServerStream, info *grpc.StreamServerInfo, handler grpc.StreamHandler) error {
+			return handler(srv, ss)
+		}))
+	}
+	mux, err := larking.NewMux(mopts...)
 	if err != nil {
 		ev.Crash = "setup: " + err.Error()
 		return
@@ -302,7 +315,7 @@ func runCancelCase(c CancelCase) (ev CancelEv) {
 	}
 	if c.Via == "proxied" {
 		// the handler lives on a backend: the client's cancellation has to travel through larking's forwarder
-		if mux, err = larking.NewMux(); err != nil {
+		if mux, err = larking.NewMux(mopts[1:]...); err != nil {
 			ev.Crash = "setup: " + err.Error()
 			return
 		}
